@@ -58,7 +58,7 @@ func makeURLKey(u *url.URL) string {
 			// and net/http connects to u.Host and sends Opaque?RawQuery as the
 			// request target: both belong to the key
 			key := scheme + ":[" + asciiLower(u.Host) + "]" + u.Opaque
-			if u.RawQuery != "" {
+			if u.RawQuery != "" || u.ForceQuery {
 				key += "?" + u.RawQuery
 			}
 			return key
@@ -116,7 +116,9 @@ func makeURLKey(u *url.URL) string {
 	result := scheme + "://" + hostPort + path
 
 	// RFC 3986 §6.2.2.2: Normalize percent-encoding in query, if present.
-	if normalized.RawQuery != "" {
+	// (an empty query - a bare "?" - is sent to the origin and is not the
+	// same URI as one without a query, RFC 3986 §6.2.3)
+	if normalized.RawQuery != "" || u.ForceQuery {
 		result += "?" + normalizePercentEncoding(normalized.RawQuery)
 	}
 
